@@ -610,7 +610,27 @@ func RefactorSkeleton(seed int64, cfg *Config) *Program {
 			{Callee: "USE", Alias: "U3", Disabled: ref("INNER", ext, "b"), Binds: []Binding{{Id: "x", Exp: ref("INNER", ext, "a")}}},
 		},
 		Ret: []Binding{{Id: "y", Exp: ref("U3", "y")}, {Id: "a", Exp: ref("INNER", base, "a")}, {Id: "f", Exp: ref("INNER", ext, "f")}}}
-	p.Pipelines = []*Pipeline{inner, top}
+	// a call disabled by a pipeline input that nothing else uses, next to an
+	// argument bound to a literal (removing that argument must leave the flag
+	// and its bindings up the chain alone)
+	work := src(&Stage{Name: "WORK", Ins: []Param{{Name: "x", Type: TInt}, {Name: "extra", Type: TInt}}, Outs: []Param{{Name: "y", Type: TInt}}})
+	p.Stages = append(p.Stages, work)
+	gated := &Pipeline{Name: "GATED", Ins: []Param{{Name: "x", Type: TInt}, {Name: "skipit", Type: TBool}, {Name: "skipit_other", Type: TBool}},
+		Outs: []Param{{Name: "y", Type: TInt}, {Name: "z", Type: TInt}},
+		Calls: []*Call{
+			{Callee: "WORK", Disabled: self("skipit"), Binds: []Binding{{Id: "x", Exp: self("x")}, {Id: "extra", Exp: lit(3)}}},
+			{Callee: "USE", Alias: "UG", Disabled: self("skipit_other"), Binds: []Binding{{Id: "x", Exp: self("x")}}},
+		},
+		Ret: []Binding{{Id: "y", Exp: ref("WORK", "y")}, {Id: "z", Exp: ref("UG", "y")}}}
+	outerg := &Pipeline{Name: "OUTERG", Ins: []Param{{Name: "x", Type: TInt}, {Name: "skipit", Type: TBool}, {Name: "skipit_other", Type: TBool}},
+		Outs:  []Param{{Name: "y", Type: TInt}, {Name: "z", Type: TInt}},
+		Calls: []*Call{{Callee: "GATED", Binds: []Binding{{Id: "x", Exp: self("x")}, {Id: "skipit", Exp: self("skipit")}, {Id: "skipit_other", Exp: self("skipit_other")}}}},
+		Ret:   []Binding{{Id: "y", Exp: ref("GATED", "y")}, {Id: "z", Exp: ref("GATED", "z")}}}
+	top.Calls = append(top.Calls, &Call{Callee: "OUTERG", Binds: []Binding{{Id: "x", Exp: lit(int64(g.r.Intn(100)))},
+		{Id: "skipit", Exp: &Exp{Kind: EBool, B: false}}, {Id: "skipit_other", Exp: &Exp{Kind: EBool, B: g.pct(50)}}}})
+	top.Outs = append(top.Outs, Param{Name: "gy", Type: TInt}, Param{Name: "gz", Type: TInt})
+	top.Ret = append(top.Ret, Binding{Id: "gy", Exp: ref("OUTERG", "y")}, Binding{Id: "gz", Exp: ref("OUTERG", "z")})
+	p.Pipelines = []*Pipeline{inner, gated, outerg, top}
 	p.Top = &Call{Callee: "TOP"}
 	return p
 }
